@@ -12,6 +12,14 @@ let event_of tok =
   | ["D"; d; more] -> XData (nlist_of_hex d, more = "1")
   | ["E"; d] -> XEpilogue (nlist_of_hex d)
   | _ -> failwith "event"
+(* client items: T;key;value (csv) / L;key;filename-or-~;hdrs;hex:hex:...-or-~ *)
+let item_of tok =
+  match String.split_on_char ';' tok with
+  | ["T"; k; v] -> CText (nlist_of_csv k, nlist_of_csv v)
+  | ["L"; k; fn; hdrs; reads] ->
+      CFile (nlist_of_csv k, (if fn = "~" then None else Some (nlist_of_csv fn)), hdrs_of hdrs,
+             (if reads = "~" then [] else List.map nlist_of_hex (String.split_on_char ':' reads)))
+  | _ -> failwith "item"
 let () = iter_lines (fun line ->
   match fields line with
   | ["urlencode"; items] -> csv_of_nlist (urlencode (pairs_of items))
@@ -19,4 +27,6 @@ let () = iter_lines (fun line ->
   | ["unquote"; s] -> csv_of_nlist (unquote (nlist_of_csv s))
   | "encode" :: b :: evs ->
       (match encode (nlist_of_hex b) (List.map event_of evs) with Some out -> "ok " ^ hex_of_nlist out | None -> "ValueError")
+  | "senc" :: b :: items ->
+      (match stream_encode (nlist_of_hex b) (List.map item_of items) with Some out -> "ok " ^ hex_of_nlist out | None -> "ValueError")
   | _ -> "bad-command")
